@@ -203,7 +203,7 @@ def _innermost_pkg_frame(tb, anywhere=False) -> str | None:
     return None
 
 
-def run_case(mod, sub_name: str, case, in_hypothesis=False) -> Ctx:
+def run_case(mod, sub_name: str, case, in_hypothesis=False, cpu_limit=None) -> Ctx:
     """Evaluate one case; converts escaping package exceptions into findings."""
     import warnings
     import numpy as np
@@ -211,10 +211,11 @@ def run_case(mod, sub_name: str, case, in_hypothesis=False) -> Ctx:
     sub = mod.SUBCHECKS[sub_name]
     import signal
     import threading
-    watchdog = CASE_CPU_LIMIT > 0 and hasattr(signal, 'setitimer') and threading.current_thread() is threading.main_thread()
+    limit = CASE_CPU_LIMIT if cpu_limit is None else cpu_limit
+    watchdog = limit > 0 and hasattr(signal, 'setitimer') and threading.current_thread() is threading.main_thread()
     if watchdog:
         signal.signal(signal.SIGPROF, _on_sigprof)
-        signal.setitimer(signal.ITIMER_PROF, CASE_CPU_LIMIT)
+        signal.setitimer(signal.ITIMER_PROF, limit)
     try:
         try:
             with warnings.catch_warnings():
@@ -227,9 +228,9 @@ def run_case(mod, sub_name: str, case, in_hypothesis=False) -> Ctx:
     except _CaseCpuLimit as e:
         where = _innermost_pkg_frame(e.__traceback__, anywhere=True)
         if where is None:
-            raise HarnessError(f'{mod.PROPERTY}/{sub_name}: the harness itself used {CASE_CPU_LIMIT:.0f} s of CPU on one case\n'
+            raise HarnessError(f'{mod.PROPERTY}/{sub_name}: the harness itself used {limit:.0f} s of CPU on one case\n'
                                + ''.join(traceback.format_exception(e))[-3000:] + '\ncase=' + json.dumps(to_jsonable(case))[:2000]) from None
-        ctx.fail(f'no_return|cpu_limit@{where}', f'call into {where} had not returned after {CASE_CPU_LIMIT:.0f} s of CPU time on this case')
+        ctx.fail(f'no_return|cpu_limit@{where}', f'call into {where} had not returned after {limit:.0f} s of CPU time on this case')
     except HarnessError:
         raise
     except Exception as e:
@@ -370,11 +371,15 @@ def shrink_witness(mod, sub_name: str, bucket: str, witness_case, tier: str, see
     t0 = time.time()
     cap = 20.0 if tier == 'quick' else 240.0
 
+    if bucket.startswith('no_return|') or '|no_return|' in bucket:
+        return witness_case, 'smallest collected witness (non-returning calls are not shrunk)'
+
     def pred(case):
         if time.time() - t0 > cap:
             return False
         try:
-            ctx = run_case(mod, sub_name, case)
+            # candidates that run into non-returning code are abandoned after 10 s of CPU instead of the full limit
+            ctx = run_case(mod, sub_name, case, cpu_limit=min(CASE_CPU_LIMIT, 10.0) if CASE_CPU_LIMIT > 0 else 0)
         except HarnessError:
             return False
         return any(f.bucket == bucket for f in ctx.findings)
